@@ -154,9 +154,14 @@ func (c12) Exec(ctx *core.Ctx, cs *core.Case) {
 		kind = "a://h/"
 	}
 	interesting := false
+	hsh := cs.Hash()
+	quiet := hsh%3 == 0
+	if quiet {
+		ctx.Count("quiet_cases")
+	}
+	readOrder := [][4]int{{0, 1, 2, 3}, {1, 2, 3, 0}, {3, 2, 1, 0}, {2, 0, 3, 1}, {3, 0, 1, 2}, {1, 3, 0, 2}}[(hsh>>8)%6]
 	for i, op := range cs.Ops {
 		where := fmt.Sprintf("after step %d %s", i, clipS(op.String(), 120))
-		beforeQuery := u.Query()
 		// the query part is cut out of Href only under the default parser: with relaxing options
 		// (lax host parsing) a host may contain '?', so the text of Href cannot be cut reliably
 		hq := func() string {
@@ -165,10 +170,16 @@ func (c12) Exec(ctx *core.Ctx, cs *core.Case) {
 			}
 			return hrefQuery(u.Href(false))
 		}
-		beforeHrefQ := hq()
+		// quiet cases read nothing of the URL or the handles between the steps; the relations
+		// are checked after the last step only (state that any read would refresh stays stale)
+		check := !quiet || i == len(cs.Ops)-1
+		var beforeQuery, beforeHrefQ string
 		var beforeStrings []string
-		for _, h := range handles {
-			beforeStrings = append(beforeStrings, h.String())
+		if check {
+			beforeQuery, beforeHrefQ = u.Query(), hq()
+			for _, h := range handles {
+				beforeStrings = append(beforeStrings, h.String())
+			}
 		}
 		switch {
 		case op.Name == "refetch":
@@ -212,8 +223,22 @@ func (c12) Exec(ctx *core.Ctx, cs *core.Case) {
 			if len(op.Args) > 1 {
 				seenNames[op.Arg(0)] = true
 			}
-			want := h.String()
-			q, s, hqv := u.Query(), u.Search(), hq()
+			if !check {
+				continue
+			}
+			var want, q, s, hqv string
+			for _, k := range readOrder { // the four reads in a per-case order
+				switch k {
+				case 0:
+					want = h.String()
+				case 1:
+					q = u.Query()
+				case 2:
+					s = u.Search()
+				case 3:
+					hqv = hq()
+				}
+			}
 			wantSearch := ""
 			if want != "" {
 				wantSearch = "?" + want
@@ -242,6 +267,9 @@ func (c12) Exec(ctx *core.Ctx, cs *core.Case) {
 			ctx.Count("set_search")
 			if len(handles) == 0 && i%2 == 0 {
 				handles = append(handles, u.SearchParams())
+			}
+			if !check {
+				continue
 			}
 			expected := refmodel.ParseURLEncoded(u.Query())
 			inNew := map[string]bool{}
@@ -292,6 +320,9 @@ func (c12) Exec(ctx *core.Ctx, cs *core.Case) {
 				return
 			}
 			ctx.Count("other_setters")
+			if !check {
+				continue
+			}
 			if u.Query() != beforeQuery || hq() != beforeHrefQ {
 				ctx.Violate("a setter other than search changed the query", beforeQuery, u.Query(), where)
 				return
